@@ -106,6 +106,8 @@ def _mk(M, op, l_none, r_none):
             return [
                 ('set-mode', c.f(c.p('tokenizer'), 'return_set')),
                 ('threshold-valid', z3.And(c['threshold'] > 0, c['threshold'] <= 1)),
+                # extra precondition recorded as known finding D8 (the size upper bound overflows below ~1e-150)
+                ('threshold-not-extreme', c['threshold'] >= rv(Fraction(1, 2 ** 400))),
                 ('attributes-are-columns', z3.And(
                     S.in_list(lcols, c['l_key_attr']), S.in_list(lcols, c['l_join_attr']),
                     S.in_list(rcols, c['r_key_attr']), S.in_list(rcols, c['r_join_attr']),
